@@ -1,10 +1,14 @@
 (* C03: blocks nested to any depth restore the state at their entry. *)
 From Coq Require Import ZArith QArith Qcanon List Bool Lia FunctionalExtensionality.
-From Cobra.Core Require Import Model Inv Preserve RestoreBase RestoreOps RestoreStruct RestoreSt.
+From Cobra.Core Require Import Model Inv Preserve RestoreBase RestoreOps RestoreStruct RestoreSt RestoreImul RestoreMet.
 Import ListNotations.
 Open Scope Z_scope.
 
-(* ---------- operations a block may contain ---------- *)
+(* ---------- operations a block may contain ----------
+   Every context-aware operation of the kernel.  Side conditions: an edited reaction belongs to the model (an
+   object outside the model does not see the model's contexts, so its edits are not recorded by design); the
+   scaling factor is not zero; remove_metabolites registers one closure per reaction of the identifier
+   universe, which therefore has to be duplicate-free (a property of the initial universe: it never changes). *)
 Definition ctx_ok (s : st) (o : op) : Prop :=
   match o with
   | SetBounds r _ _ | SetLb r _ | SetUb r _ | KnockOut r => rin s r = true
@@ -12,7 +16,9 @@ Definition ctx_ok (s : st) (o : op) : Prop :=
   | AddMet _ | RemoveRxn _ _ => True
   | AddRxn r => In r (rids s)
   | AddSt r l _ | SubSt r l _ => rin s r = true /\ (forall m, In m (map fst l) -> In m (mids s))
-  | _ => False
+  | RemoveMet _ _ => NoDup (rids s)
+  | Imul r c => rin s r = true /\ c <> q0
+  | NewRxn _ _ _ _ | Enter | Exit => False
   end.
 
 Lemma ctx_ok_op_ok s o : ctx_ok s o -> op_ok s o.
@@ -24,6 +30,7 @@ Proof.
   - cbn [fst]. apply add_rxn_undone; assumption.
   - cbn [fst]. apply remove_rxn_undone; assumption.
   - apply add_met_undone; assumption.
+  - cbn [fst]. destruct destructive; [apply remove_met_d_undone|apply remove_met_nd_undone]; assumption.
   - apply set_bounds_undone; assumption.
   - apply set_lb_undone; assumption.
   - apply set_ub_undone; assumption.
@@ -33,6 +40,7 @@ Proof.
   - apply set_obj_undone; assumption.
   - destruct (rin s r); [apply set_obj_undone; assumption|apply undone_refl].
   - cbn [fst]. apply set_dir_undone.
+  - cbn [fst]. apply imul_undone; tauto.
 Qed.
 
 (* the structural operations do not touch any bound *)
@@ -59,6 +67,8 @@ Proof.
   - cbn [fst]. intros r0. destruct (add_rxn_bounds r s) as [X Y]. rewrite X, Y. apply HV.
   - cbn [fst]. intros r0. destruct (remove_rxn_bounds r orphans s) as [X Y]. rewrite X, Y. apply HV.
   - destruct (min s m); [exact HV|]. cbn [fst]. intros r0. unfold model_add_mets. rewrite lb_record_all, ub_record_all. apply HV.
+  - cbn [fst]. intros r0. destruct destructive;
+      [destruct (remove_met_d_bounds m s) as [X Y]|destruct (remove_met_nd_bounds m s) as [X Y]]; rewrite X, Y; apply HV.
   - apply set_bounds_V; assumption.
   - apply set_lb_V; assumption.
   - apply set_ub_V; assumption.
@@ -68,6 +78,7 @@ Proof.
   - apply set_obj_V; assumption.
   - destruct (rin s r); [apply set_obj_V; assumption|exact HV].
   - cbn [fst]. unfold set_dir. destruct (_ && _); [exact HV|]. intros r0. cbn. destruct (in_ctx s); recs; apply HV.
+  - cbn [fst]. apply imul_V. exact HV.
 Qed.
 
 (* ---------- blocks, nested to any depth ---------- *)
